@@ -8,7 +8,7 @@ from vlib import core
 TRUST = ("Lean 4.33 kernel; axioms at most propext/Classical.choice/Quot.sound (audited per run by #audit_module); "
          "hand-written model tied to the C++ by the correspondence harness (differential, exact, generator-bounded); ")
 MANIFEST = dict(
-  text=("Theorems (Props/C17.lean, 27) about executable models of the three tree constructions, of IterativeNNQuery and of "
+  text=("Theorems (Props/C17.lean, 27; Gen/NNStateless.lean, 2 regenerated from the C++ per run) about executable models of the three tree constructions, of IterativeNNQuery and of "
         "NearestNeighborModel.  QUERY (trace tree with NONE/PARTIAL/COMPLETE marks, queue ordered by (distance, tie rank), squaredRadius, "
         "head pointer, nextIndex), for EVERY tree shape, every admissible lower-bound function, every query and number of next() calls: "
         "squaredRadius never exceeds the distance of a point not yet queued (radius_is_lower_bound); where every queue entry carries the true "
@@ -50,7 +50,25 @@ MANIFEST = dict(
         "votes for class 0); generated integer point sets (1-6 dim; grid, collinear, duplicates with differing labels, all points equal, one "
         "varying coordinate, points on the cut value, two values; coordinates times 2^e for e in -20..30), data batches of 1/2/3/4/7/one, "
         "KDTree/LCTree/KHCTree(linear)/KHCTree((<x,y>+1)^2), bucket sizes 1-4, depth limits, k=1/k=n/1<k<n, a second tree on the same data; "
-        "a slice re-run with 3 OpenMP threads.  Independent brute-force oracle in the harness (ASan/UBSan), by definition."),
+        "a slice re-run with 3 OpenMP threads.  Independent brute-force oracle in the harness (ASan/UBSan), by definition.  "
+        "SCALES: every coordinate times 2^e, e in {-40,-35,-30,-25,-20,-14,-7,9,16,23,30,40}: a fifth of the generated stream plus a "
+        "group in which every e gets its share on every run (kd, LC, KHC, all bucket sizes); squared distances stay exact, so the "
+        "brute-force oracle demands EQUALITY with exhaustive search at every scale (a tolerance anywhere in the search is scale "
+        "dependent and yields a concrete failing input), and the pruning test of IterativeNNQuery::enqueue is extracted from the C++ on "
+        "every run and must be the model's pure comparison `bound >= best` (Gen/NNStateless.lean, prune_test_is_pure_comparison).  "
+        "ONE CONST TREE SHARED BY THREADS (NearestNeighborModel evaluates the batches of a data set in an OpenMP loop, so this is "
+        "ordinary use): op `mt` (harness/c17_mt.cpp), every run: a FRESH kd/LC/KHC/KHC-poly tree (data offset from the origin by "
+        "+-2^5..2^20, spans 4-64: ties and duplicates; bucket sizes, depth limits, scales as above) is built 12 (thorough 16) times and, "
+        "as its very first use, evaluated by 2-4 threads at once - alternately model(queryData) (the library's own parallel loop) and "
+        "TreeNearestNeighbors::getNeighbors on all batches in a parallel loop - on query sets of 2-8 batches (half of the cases with the "
+        "SAME query points in every batch so that the threads reach the same unvisited nodes together; queries inside, on data points, "
+        "at the origin / mirror image); every repetition is compared with exhaustive search exactly (distances, order, labels, "
+        "predictions of both back-ends; independent brute-force oracle) and with the Lean model's exhaustive search (to which the tree "
+        "search is equal by the *_search_exact theorems); the same family under ThreadSanitizer (clang-14 + libomp + Archer: a race "
+        "between threads on the tree / back-end / DataView is reported whether or not it changed a result); and a regenerated "
+        "obligation: the tree, query, back-end, model and DataView headers contain no `mutable` member, no const_cast and no static "
+        "datum (translate/nn_stateless.py -> Gen/NNStateless.lean, tree_and_query_classes_hold_no_hidden_state; reviewed exceptions in "
+        "translate/nn_stateless_allow.json, none)."),
   note=TRUST + "all compared quantities are exact on the integer grid (squared distances; the reported sqrt is compared through its "
        "square with the nearest-double rule); the order std::nth_element leaves inside a range and the heap-address tie-break are "
        "adopted from the real tree (harness annotation, tools/c17_drv.py) - therefore the LC/KHC pivot pair is READ from the real node and "
@@ -63,12 +81,19 @@ MANIFEST = dict(
        "distances, and only where the model reproduces the output line). Open findings found in this round: NB1 (m_neighbors counts leaves: "
        "neighbors() wrong, next() beyond n reads the empty queue; probed on every run, k > n generated only on single-point leaves while "
        "open) and REG1 (regression model's setDistanceWeightType cannot be instantiated; compile probe); K1 and NB1 share the validated "
-       "patch C17-K1.patch. Findings T1, R1, L1, S1, KH1 were fixed in /repo; their inputs stay in corpus/C17.",
-  technique="Lean 4 invariant proof over the query state machine and structural induction over the three tree constructions (all inputs) + exact differential correspondence with the C++ (ASan/UBSan) + brute-force oracle",
+       "patch C17-K1.patch. Findings T1, R1, L1, S1, KH1 were fixed in /repo; their inputs stay in corpus/C17. "
+       "Concurrency: the Lean model is sequential and pure; that the C++ search is a function of (tree, query) also when the tree is "
+       "shared is established by the source inventory (token level: declarations `mutable`/const_cast/static, not writes through "
+       "pointers held by the object), ThreadSanitizer and the repeated fresh-tree runs (schedule dependent: a sample of schedules, "
+       "not all of them); a replay of such a failure repeats the op 5 times. In the fresh-tree family the coordinates reach 2^20 "
+       "(kd) / 2^10 (LC, KHC) / 2^7 (KHC-poly) with at most 8 dimensions: squared distances stay below 2^48 and exact.",
+  technique="Lean 4 invariant proof over the query state machine and structural induction over the three tree constructions (all inputs) + exact differential correspondence with the C++ (ASan/UBSan) + brute-force oracle at all power-of-two scales + fresh trees shared by OpenMP threads (brute force, ThreadSanitizer) + source-regenerated no-hidden-state / pruning-test obligations",
   design="§6 C17, §14 C17")
 
 FINISH = dict(level="proof",
-              rule="cases = (batch size, integer point set, labels, tree kind/bucket/depth, queries, batched knn/model calls) from one "
+              rule="fresh-tree cases = (scale, offset point cloud, labels, tree kind/bucket/depth, k, threads, repetitions, query batches) "
+                   "from a forked stream, each `mt` op = that many fresh trees each evaluated concurrently; "
+                   "cases = (batch size, integer point set, labels, tree kind/bucket/depth, queries, batched knn/model calls) from one "
                    "SplitMix64 stream; every query is run for n next() calls (all k at once) and compared state by state; a case is non-trivial if n >= 4 and the tree "
                    "has inner nodes; distinct = distinct op text")
 
@@ -584,11 +609,13 @@ KH1_PROBE = [["data 1 2 -3 2", "labels 0 1", "build khcp 0 1", "query -1", "knn 
 
 
 def run(ctx):
-    ctx.trusted += ["correspondence harness harness/c17.cpp + generator checks/c17.py + tools/c17_drv.py",
+    ctx.trusted += ["correspondence harness harness/c17.cpp + harness/c17_mt.cpp + generator checks/c17.py + tools/c17_drv.py",
+                    "translator translate/nn_stateless.py (token-level scan shared with translate/par_regions.py); clang-14 ThreadSanitizer + libomp + Archer",
                     "hand-written model Model/NN.lean (TreeNearestNeighbors.h, KDTree.h, LCTree.h, KHCTree.h, BinaryTree.h, NearestNeighborModel.h are modelled, not translated)",
                     "leaf order, node address ranks and the LC/KHC pivot pairs are read from the real tree; LC/KHC real (rounded) lower bounds drive the query model (checked for admissibility per query and against the ideal model's bounds)",
                     "ASan/UBSan runtime for the real code's memory safety (not a theorem)"]
-    ctx.assumptions += ["integer coordinates (|x| <= 2000, <= 6 dimensions): all squared distances and kd bounds are exact in double",
+    ctx.assumptions += ["integer coordinates (|x| <= 2000, <= 6 dimensions; fresh-tree family: |x| <= 2^20 + 64, <= 8 dimensions) times 2^e, |e| <= 40: all squared distances and kd bounds are exact in double",
+                        "shared-tree use is sampled: 2-4 OpenMP threads, the schedules that occur in the repetitions; ThreadSanitizer's happens-before analysis of those runs",
                         "next() is called at most n times per query (the C++ precondition)",
                         "kd_search_exact needs no hypothesis on the tree; LC/KHC theorems are about ideal arithmetic (the C++ rounds), their leaf-queue version assumes LeafUniform (checked on every real tree by the harness)",
                         "points and query have the same number of coordinates"]
